@@ -1355,15 +1355,25 @@ func exchangeOnce(rt *client.Runtime, api *API, cur *exchange, op *Op, concurren
 	case "signing":
 		cop.AuthInfo = signing{keyIn, keyName}
 	}
+	// The call runs under a watchdog: "the call did not return" is an observation (an error the statement does not allow for a
+	// servable request), not a reason for the run to stall (mechanical mutant C04[0]: a multipart body nobody ever closes).
 	var callErr error
-	func() {
+	done := make(chan error, 1)
+	go func() {
+		var err error
 		defer func() {
 			if e := recover(); e != nil {
-				callErr = fmt.Errorf("panic: %v", e)
+				err = fmt.Errorf("panic: %v", e)
 			}
+			done <- err
 		}()
-		_, callErr = rt.Submit(cop)
+		_, err = rt.Submit(cop)
 	}()
+	select {
+	case callErr = <-done:
+	case <-time.After(25 * time.Second):
+		callErr = fmt.Errorf("call did not return within 25 s (context deadline 10 s)")
+	}
 	cur.mu.Lock()
 	ev := M{"step": idx + 1, "op": st.Op, "media": mediaName(st.Media), "supplied": supplied, "setup": true, "err": callErr != nil, "handled_op": cur.handledOp, "received": cur.received, "invoked": cur.invoked,
 		"handler": cur.handler, "seen": seen, "wire_path": trace.B(cur.wirePath), "wire_query": trace.B(cur.wireQuery), "err_text": trace.B(errText(callErr))}
